@@ -69,3 +69,18 @@ pub proof fn lemma_sem_pre_remove_single_node(w: &RemoveSingleNode, s: &Schedule
             Some(w.vehicle), None::<Vehicle>, s.removed_nodes(single(w.node), w.vehicle)), // @obl C11.remove_single_node.no_panic_under_stated_preconditions
 {
 }
+/// the clauses of remove_segment's postcondition (branch: the provider keeps a tour) make up candidate_ok
+pub proof fn lemma_candidate_ok(w: &RemoveSingleNode, s: &Schedule, c: &Schedule)
+    requires
+        c.vehicles@ == s.vehicles@ && c.vehicle_ids_grouped_and_sorted@ == s.vehicle_ids_grouped_and_sorted@ && c.network == s.network,
+        s.provider_shrunk(single(w.node), w.vehicle, c.tours@),
+        s.other_tours_untouched(w.vehicle, c.tours@),
+        s.formations_follow(s.removed_nodes(single(w.node), w.vehicle), w.vehicle, c.train_formations@),
+        c.ids_ok(),
+        s.unserved_follow(s.removed_nodes(single(w.node), w.vehicle), w.vehicle, c.unserved_passengers),
+        c.costs == s.costs + c.tours@[w.vehicle].costs - s.tours@[w.vehicle].costs,
+        usage_exact(c.depot_usage@, &s.network, c.vehicles@, c.tours@),
+        s.transitions_follow(w.vehicle, c.next_period_transitions@, c.maintenance_violation, c.vehicles@, c.tours@),
+    ensures w.candidate_ok(s, c),
+{
+}
